@@ -123,7 +123,7 @@ Hist == Keep /\ Clean /\ UNCHANGED <<staged, stashed, pruned, wt, rt2>>
 PCommit(b, p, blob, g) == Hist /\ b # wt /\ Commit(b, p, blob, g)
 PCommitTree(b, t, g)   == Hist /\ b # wt /\ CommitTree(b, t, g)
 PMerge(b, o)           == Hist /\ b # wt /\ Merge(b, o)
-PPush(S)               == Hist /\ Push(S, "git-push", {})
+PPush(S)               == Hist /\ Push(S, "git-push", {}, FALSE)
 POtherPush(b)          == Hist /\ OtherPush(b)
 PStage(p, o)           == Keep /\ Stage(p, o)
 PStash(p, o)           == Keep /\ Stash(p, o)
